@@ -94,8 +94,9 @@ func (clnt *Clnt) Rpcnb(r *Req) error {
 	SetTag(r.Tc, tag)
 	clnt.Lock()
 	if clnt.err != nil {
+		err := clnt.err
 		clnt.Unlock()
-		return clnt.err
+		return err
 	}
 
 	if clnt.reqlast != nil {
